@@ -218,6 +218,23 @@ def flightLine (st : FlightSt) (ln : Nat) (l : String) : FlightSt :=
   | ["OP", _, name, a, b, _] => if name == "deliver" then flightCtl st name a b else st
   | _ => st
 
+/-- the messages in flight by the events (`EV send` without `EV delivered`) just before every line, for the lines
+    that are `hold` calls: `(line number, [(id, src host, dst host)])`. -/
+def flightSnapshots (lines : List String) : List (Nat × List (Nat × Nat × Nat)) :=
+  let (_, _, acc) := lines.foldl (fun (x : FlightSt × Nat × List (Nat × List (Nat × Nat × Nat))) l =>
+    let (st, ln, acc) := x
+    let acc := match toks l with
+      | "OP" :: _ :: name :: _ => if name == "hold" || name == "net_hold" || name == "hold_set" then acc ++ [(ln, st.undeliv)] else acc
+      | _ => acc
+    (flightLine st ln l, ln + 1, acc)) ({}, 1, [])
+  acc
+
+/-- host index ↦ numeric address, from the registration lines. -/
+def hostIps (lines : List String) : List (Nat × Nat) :=
+  lines.filterMap (fun l => match toks l with
+    | "OP" :: "ctl" :: "reg" :: i :: rest => some (i.toNat?.getD 0, kvNat rest "ip" 0)
+    | _ => none)
+
 /-- first breach of the two in-flight rules, if any. -/
 def flightRule (lines : List String) : Option (Nat × String × String) :=
   let (st, _) := lines.foldl (fun (acc : FlightSt × Nat) l => (flightLine acc.1 acc.2 l, acc.2 + 1)) ({}, 1)
@@ -271,15 +288,24 @@ def c08Expect (st : C08St) (k : Nat × Nat) : List (Nat × Nat × Nat) :=
 def c08SetExpect (st : C08St) (k : Nat × Nat) (v : List (Nat × Nat × Nat)) : C08St :=
   { st with expect := (st.expect.filter (·.1 != k)) ++ [(k, v)] }
 
-def c08Step (st : C08St) (x : Nat × List String × List String) : C08St :=
+def c08Step (snaps : List (Nat × List (Nat × Nat × Nat))) (ips : List (Nat × Nat))
+    (st : C08St) (x : Nat × List String × List String) : C08St :=
   let (ln, op, obs) := x
   let onPair := fun (k : Nat × Nat) (e : Nat × Nat × Nat) => pairKey e.1 e.2.1 == k
+  let ipOf : Nat → Nat := fun h => match ips.find? (·.1 == h) with | some p => p.2 | none => h
   let doHold := fun (st : C08St) (a b : String) (fresh : Bool) =>
     let k := pairKey (hostTok a) (hostTok b)
     if st.held.contains k then st else
     let st := { st with held := st.held ++ [k] }
     if fresh && st.linksFresh then
-      let inflight := st.lastLinks.filter (onPair k)
+      let shown := st.lastLinks.filter (onPair k)
+      -- in flight is more than the iterator showed before the hold: messages that are ready but not yet handed to
+      -- their host (events, not iterator).  `hold` recalls them to the head of the queue — lower destination
+      -- address first, each destination's in order — and from then on the iterator shows them too.
+      let ev := match snaps.find? (·.1 == ln) with | some p => p.2 | none => []
+      let ready := (ev.filter (fun m => pairKey m.2.1 m.2.2 == k && !shown.any (·.2.2 == m.1))).map (fun m => (m.2.1, m.2.2, m.1))
+      let lo : Nat := if Nat.ble (ipOf k.1) (ipOf k.2) then k.1 else k.2
+      let inflight := ready.filter (·.2.1 == lo) ++ ready.filter (·.2.1 != lo) ++ shown
       let st := c08SetExpect st k inflight
       { st with known := st.known ++ [k], heldMsgs := st.heldMsgs ++ inflight.map (·.2.2) }
     else st
@@ -358,7 +384,7 @@ def isSubseq : List Nat → List Nat → Bool
 
 def oracleC08 (lines : List String) : OResult :=
   let drained := lines.any (· == "OP ctl mark drained")
-  let st := (opObsPairs lines).foldl c08Step {}
+  let st := (opObsPairs lines).foldl (c08Step (flightSnapshots lines) (hostIps lines)) {}
   let res := st.res
   -- released together ⇒ arrive in send order per direction
   let res := if !res.ok then res else
@@ -1338,7 +1364,18 @@ def c04Line (st : C04St) (ln : Nat) (l : String) : C04St :=
   | ["EV", "ticker", h] =>
     let x := h.toNat?.getD 0
     if st.down.contains x then st.fail ln s!"a background task of crashed host h{x} ran" else st
-  | ["EV", "guarddrop", _] => { st with guardDrops := st.guardDrops + 1 }
+  | "EV" :: "guarddrop" :: _ :: rest =>
+    -- the destructor's clock reading (`t=<ns>` of `sim_elapsed`): crash and bounce run destructors between steps,
+    -- where the virtual time is the step boundary — hosts of this family are registered at time 0
+    let st := match rest with
+      | [tv] =>
+        (match (tv.drop 2).toString.toNat? with
+         | some ns => if ns == st.step * st.tick then st else
+             { (st.fail ln s!"a destructor run by crash / bounce read sim_elapsed = {ns} ns at virtual time {st.step * st.tick} ns") with
+               res := { (st.fail ln s!"a destructor run by crash / bounce read sim_elapsed = {ns} ns at virtual time {st.step * st.tick} ns").res with pattern := "F-C05-2" } }
+         | none => st)
+      | _ => st
+    { st with guardDrops := st.guardDrops + 1 }
   | ["EV", "start", h] =>
     let x := h.toNat?.getD 0
     let st := if st.down.contains x then st.fail ln s!"software of crashed host h{x} was started" else st
